@@ -58,7 +58,7 @@ def history(rng):
 
 def run(rep, work, rng, tier):
     common.proof_part(rep, 'C08')
-    n = 200 if tier == 'quick' else 5000
+    n = 200 if tier == 'quick' else 20000
     cases = []; kinds = {}
     for i in range(n):
         lines, ks = history(rng); cases.append(('a%d' % i, lines))
